@@ -102,6 +102,8 @@ func blockCandidates(m *ledger.Model, inst func(string) *coin.Transaction) []blo
 		add("valid2["+validNames[0]+","+validNames[1]+"]+10s", mkBlock(m, valid[:2], 10, idP.Sec, nil))
 		// same two transactions listed in the other order, header recomputed: still a valid block for a follower
 		add("valid2-swapped+10s", mkBlock(m, []coin.Transaction{valid[1], valid[0]}, 10, idP.Sec, nil))
+		add("valid2:uxhash-flip:resigned", mkBlock(m, valid[:2], 10, idP.Sec, func(b *coin.Block) { b.Head.UxHash[0] ^= 1 }))
+		add("valid2:bodyhash-flip:resigned", mkBlock(m, valid[:2], 10, idP.Sec, func(b *coin.Block) { b.Head.BodyHash[5] ^= 4 }))
 		// body swapped but header (and signature) of the original order kept
 		o := mkBlock(m, valid[:2], 10, idP.Sec, nil)
 		o.Body.Transactions = coin.Transactions{valid[1], valid[0]}
@@ -169,6 +171,11 @@ func blockCandidates(m *ledger.Model, inst func(string) *coin.Transaction) []blo
 	a, b := inst("pay-G-A"), inst("pay-G-B")
 	if a != nil && b != nil && m.HardInBlock(a) == "" && m.HardInBlock(b) == "" {
 		add("double-spend-in-block[pay-G-A,pay-G-B]", mkBlock(m, []coin.Transaction{*a, *b}, 10, idP.Sec, nil))
+	}
+	// the later transaction's SECOND input is the earlier transaction's input
+	if c, d := inst("pay-A2-C"), inst("merge-A"); c != nil && d != nil && m.HardInBlock(c) == "" && m.HardInBlock(d) == "" {
+		add("double-spend-in-block[pay-A2-C,merge-A:second-input]", mkBlock(m, []coin.Transaction{*c, *d}, 10, idP.Sec, nil))
+		add("double-spend-in-block[merge-A,pay-A2-C]", mkBlock(m, []coin.Transaction{*d, *c}, 10, idP.Sec, nil))
 	}
 	add("same-txn-twice", mkBlock(m, []coin.Transaction{t1, t1}, 10, idP.Sec, nil))
 	// second transaction spends an output created by the first one in the same block
